@@ -322,6 +322,7 @@ def r12_s(ctx):
         ctx.include(fn, 'R12.S')
     from . import c13
     ctx.include(c13.r13_6, 'R12.S')  # the unchecked iterators agree with the checked ones: escape carry across blocks
+    ctx.include(c13.r13_11, 'R12.S')  # the unchecked iterators cut a number where it ends
     ctx.include(c13.r13_6c, 'R12.S')  # ... and the escape step of a block is skipped only when it cannot matter
 
 
